@@ -62,6 +62,17 @@ func textSpace(tier string) []Operand {
 	for _, ex := range []int32{-100000, -99999, -2500, -30, 5, 30, 99999, 100000} {
 		out = append(out, Fin(0, ex, false), Fin(0, ex, true))
 	}
+	// non-zero coefficients of about 2000 digits around exponent -2000 (where the zero-padding exception of the
+	// plain notation ends): the adjusted exponent is still >= -6, so the plain notation is required
+	for _, n := range []int{1994, 1995, 1996, 2000, 2005} {
+		c := bigOf("1" + strings.Repeat("7", n-1))
+		for ex := int32(-2006); ex <= -1994; ex++ {
+			out = append(out, FinBig(c, ex, ex%2 == 0))
+		}
+	}
+	for ex := int32(-2004); ex <= -1998; ex++ {
+		out = append(out, FinBig(bigOf("12345"+strings.Repeat("0", 2001)), ex, false))
+	}
 	for _, f := range []int{ref.Inf, ref.NaN, ref.SNaN} {
 		out = append(out, DecJ{Form: f}.Op(), DecJ{Form: f, Neg: true}.Op())
 	}
